@@ -97,6 +97,12 @@ pub struct Recorder {
     pub weight_last: std::sync::atomic::AtomicI64,
     /// OS thread ids of sweeper (timer) threads: they wake on their own and are ignored by the hang test
     pub timer_tids: Mutex<HashSet<u64>>,
+    /// kind of the command the worker began last (for attributing a worker death to the command that killed it)
+    pub last_exec_kind: AtomicUsize,
+}
+
+pub fn last_command_kind() -> &'static str {
+    match recorder().last_exec_kind.load(Ordering::SeqCst) { 1 => "Put", 2 => "PutWithTTL", 3 => "Delete", 4 => "UpdateWeight", 5 => "Shutdown", _ => "none" }
 }
 
 pub fn role_index(role: Role) -> usize {
@@ -133,6 +139,7 @@ pub fn recorder() -> &'static Arc<Recorder> {
             check_weight_bounds: AtomicBool::new(true),
             weight_last: std::sync::atomic::AtomicI64::new(0),
             timer_tids: Mutex::new(HashSet::new()),
+            last_exec_kind: AtomicUsize::new(0),
         });
         let sink_recorder = recorder.clone();
         verif::set_event_sink(Some(Arc::new(move |event: Event| sink_recorder.on_event(event))));
@@ -146,7 +153,7 @@ impl Recorder {
         match &event {
             Event::Sent { uid, .. } => { self.sent.fetch_add(1, Ordering::SeqCst); LAST_SENT.with(|c| c.set(*uid)); }
             Event::SendFailed { .. } => { self.send_failed.fetch_add(1, Ordering::SeqCst); LAST_SENT.with(|c| c.set(0)); }
-            Event::ExecBegin { .. } => { self.exec_begun.fetch_add(1, Ordering::SeqCst); }
+            Event::ExecBegin { kind, .. } => { self.last_exec_kind.store(*kind as usize + 1, Ordering::SeqCst); self.exec_begun.fetch_add(1, Ordering::SeqCst); }
             Event::Acked { uid } => {
                 if self.track_acked.load(Ordering::Relaxed) { self.acked.lock().unwrap().insert(*uid); }
                 self.completed.fetch_add(1, Ordering::SeqCst);
@@ -494,6 +501,13 @@ pub enum Waited {
 
 pub static WATCHDOG_SECS: AtomicU64 = AtomicU64::new(120);
 
+/// Set when a wait was classified as a deadlock or a dead worker: every later wait of the same case returns at once,
+/// so that one hang does not cost a verdict per pending operation. Cleared when the next case starts.
+pub static ABORTED: AtomicBool = AtomicBool::new(false);
+pub fn aborted() -> bool { ABORTED.load(Ordering::SeqCst) }
+pub fn clear_abort() { ABORTED.store(false, Ordering::SeqCst); }
+fn abort_case() { ABORTED.store(true, Ordering::SeqCst); }
+
 /// Awaits an acknowledgement the way a well-behaved executor would: poll, park until woken, poll again.
 /// It never re-polls without a wake (that would mask a lost wake-up); a stuck wait is classified logically.
 pub fn await_ack(handle: &CommandAcknowledgementHandle, uid: u64, worker_marks: &ThreadMarks) -> Waited {
@@ -501,6 +515,10 @@ pub fn await_ack(handle: &CommandAcknowledgementHandle, uid: u64, worker_marks: 
     let mut seen_wakes = 0u64;
     let started = Instant::now();
     loop {
+        if aborted() {
+            // the case was already decided (a hang was classified): look once, do not wait
+            return match poll_once(handle, &waker) { Poll::Ready(CommandStatus::Pending) => Waited::ReadyPending, Poll::Ready(status) => Waited::Ready(status), Poll::Pending => Waited::Inconclusive("case aborted after a classified hang".into()) };
+        }
         match poll_once(handle, &waker) {
             Poll::Ready(CommandStatus::Pending) => return Waited::ReadyPending,
             Poll::Ready(status) => return Waited::Ready(status),
@@ -526,14 +544,16 @@ pub fn await_ack(handle: &CommandAcknowledgementHandle, uid: u64, worker_marks: 
                 thread::sleep(Duration::from_millis(20));
                 if uid != 0 && r.is_acked(uid) { continue; }
                 if waker.count() != seen_wakes { continue; }
+                abort_case();
                 return Waited::WorkerDead;
             }
             let progress = r.progress.load(Ordering::Relaxed);
             if progress != last_progress { last_progress = progress; idle_since = Instant::now(); }
             if idle_since.elapsed() > Duration::from_secs(3) {
-                if let Some(description) = all_threads_blocked() { return Waited::Deadlock(description); }
+                if let Some(description) = all_threads_blocked() { abort_case(); return Waited::Deadlock(description); }
                 idle_since = Instant::now();
             }
+            if aborted() { return Waited::Inconclusive("case aborted after a classified hang".into()); }
             if started.elapsed() > Duration::from_secs(WATCHDOG_SECS.load(Ordering::Relaxed)) {
                 return Waited::Inconclusive("wall-clock watchdog while awaiting an acknowledgement".to_string());
             }
@@ -600,7 +620,7 @@ pub fn wait_until<F: Fn() -> bool>(what: &str, condition: F) -> Result<(), Waite
         let progress = recorder().progress.load(Ordering::Relaxed);
         if progress != last_progress { last_progress = progress; idle_since = Instant::now(); }
         if idle_since.elapsed() > Duration::from_secs(5) {
-            if let Some(description) = all_threads_blocked() { return Err(Waited::Deadlock(format!("{}: {}", what, description))); }
+            if let Some(description) = all_threads_blocked() { abort_case(); return Err(Waited::Deadlock(format!("{}: {}", what, description))); }
             idle_since = Instant::now();
         }
         if started.elapsed() > Duration::from_secs(WATCHDOG_SECS.load(Ordering::Relaxed)) {
